@@ -1071,7 +1071,7 @@ class FileStorage(
 
     def _txn_find(self, tid, stop_at_pack):
         pos = self._pos
-        while pos > 39:
+        while pos > 4:
             self._file.seek(pos - 8)
             pos = pos - u64(self._file.read(8)) - 8
             self._file.seek(pos)
@@ -2118,8 +2118,9 @@ class UndoSearch:
 
     def finished(self):
         """Return True if UndoSearch has found enough records."""
-        # BAW: Why 39 please?  This makes no sense (see also below).
-        return self.i >= self.last or self.pos < 39 or self.stop
+        # An empty first transaction without metadata ends at 35, so the
+        # only position with nothing before it is the end of the magic.
+        return self.i >= self.last or self.pos <= 4 or self.stop
 
     def search(self):
         """Search for another record."""
